@@ -103,9 +103,15 @@ Definition is_dual (p : phase) : bool :=
 
 Record split_state := mkSS { ss_phase : phase; ss_new : list N; ss_point : list N }.
 
-(* c_shard = None: the ingester's ordinary path (no shard component — the data
-   of the shard being split); Some s: the `shard=<s>` path of write_to_shard. *)
-Record chunk := mkChunk { c_shard : option N; c_rows : list row }.
+(* where a chunk lives:
+   LOrdinary  the ingester's ordinary path (no shard component — live data of
+              the shard being split);
+   LNew s     under new shard s: the `shard=<s>` path of write_to_shard, or the
+              `<s>/backfill_*` path of the splitter's back-fill;
+   LHist sid  a historical chunk whose path names the old shard sid (what
+              get_chunks_for_shard(sid) finds and the back-fill copies). *)
+Inductive loc := LOrdinary | LNew (s : N) | LHist (sid : N).
+Record chunk := mkChunk { c_loc : loc; c_rows : list row }.
 
 Record istate := mkIS {
   i_flush_rows : N;                       (* IngesterConfig::flush_row_count *)
@@ -122,7 +128,7 @@ Definition buffer_rows (buf : list ibatch) : list row := concat (map ib_rows buf
 Definition flush_buffer (st : istate) : istate :=
   match i_buffer st with
   | [] => st
-  | _ => mkIS (i_flush_rows st) (i_splits st) [] (i_chunks st ++ [mkChunk None (buffer_rows (i_buffer st))])
+  | _ => mkIS (i_flush_rows st) (i_splits st) [] (i_chunks st ++ [mkChunk LOrdinary (buffer_rows (i_buffer st))])
   end.
 
 (* append_to_buffer_and_maybe_flush (the size-based triggers and BufferFull are
@@ -136,7 +142,7 @@ Definition append_and_maybe_flush (st : istate) (b : ibatch) : istate :=
   if (i_flush_rows st2 <=? N.of_nat (length (buffer_rows (i_buffer st2))))%N then flush_buffer st2 else st2.
 
 Definition add_chunk (st : istate) (shard : N) (rows : list row) : istate :=
-  mkIS (i_flush_rows st) (i_splits st) (i_buffer st) (i_chunks st ++ [mkChunk (Some shard) rows]).
+  mkIS (i_flush_rows st) (i_splits st) (i_buffer st) (i_chunks st ++ [mkChunk (LNew shard) rows]).
 
 (* `if batch_x.num_rows() > 0 { write_to_shard(&batch_x, &split_state.new_shards[k]) }`
    — indexing a too short new_shards vector panics *)
@@ -190,13 +196,62 @@ Definition complete_split (st : istate) (sid : N) : istate :=
 Definition has_active_split (st : istate) : bool :=
   existsb (fun e => is_dual (ss_phase (snd e))) (i_splits st).
 
+Definition is_old (c : chunk) : bool := match c_loc c with LNew _ => false | _ => true end.
+Definition in_shard (s : N) (c : chunk) : bool := match c_loc c with LNew s' => N.eqb s' s | _ => false end.
+Definition is_hist (sid : N) (c : chunk) : bool := match c_loc c with LHist s' => N.eqb s' sid | _ => false end.
+
+(* The splitter's back-fill (ShardSplitter::run_backfill, first run for the
+   shard): the phase is set to Backfill, then every historical chunk of the old
+   shard is split at the split point (splitter.rs split_batch: same rule as
+   split_batch_by_key) and one copy chunk per non-empty side is registered
+   under the new shards.  Chunks hold fewer rows than the reader's batch size,
+   so one source chunk yields at most one copy per side. *)
+Fixpoint backfill_chunks (sp : option Z) (news : list N) (hist : list chunk) : list chunk * outcome unit :=
+  match hist with
+  | [] => ([], Done tt)
+  | c :: rest =>
+      match sp with
+      | None => ([], Failed E_INTERNAL)
+      | Some p =>
+          let lo := filter (lower_side p) (c_rows c) in
+          let up := filter (upper_side p) (c_rows c) in
+          match lo, nth_error news 0 with
+          | _ :: _, None => ([], Panic)
+          | _, a0 =>
+              let ca := match lo, a0 with _ :: _, Some s => [mkChunk (LNew s) lo] | _, _ => [] end in
+              match up, nth_error news 1 with
+              | _ :: _, None => (ca, Panic)
+              | _, a1 =>
+                  let cb := match up, a1 with _ :: _, Some s => [mkChunk (LNew s) up] | _, _ => [] end in
+                  let '(more, o) := backfill_chunks sp news rest in (ca ++ cb ++ more, o)
+              end
+          end
+      end
+  end.
+
+Definition run_backfill (st : istate) (sid : N) : istate * outcome unit :=
+  match aget N.eqb sid (i_splits st) with
+  | None => (st, Done tt)       (* the harness only runs the back-fill of a planted split *)
+  | Some ss =>
+      let st1 := update_split_progress st sid PBackfill in
+      let '(cs, o) := backfill_chunks (split_ts (ss_point ss)) (ss_new ss) (filter (is_hist sid) (i_chunks st)) in
+      (mkIS (i_flush_rows st1) (i_splits st1) (i_buffer st1) (i_chunks st1 ++ cs), o)
+  end.
+
+(* a historical chunk of old shard sid, registered directly (data that existed
+   before the split) *)
+Definition add_hist (st : istate) (sid : N) (rows : list row) : istate :=
+  mkIS (i_flush_rows st) (i_splits st) (i_buffer st) (i_chunks st ++ [mkChunk (LHist sid) rows]).
+
 (* histories *)
 Inductive hop :=
 | HStart (sid : N) (news point : list N)
 | HProgress (sid : N) (p : phase)
 | HComplete (sid : N)
 | HWrite (sid : N) (b : ibatch)
-| HFlush.
+| HFlush
+| HHist (sid : N) (rows : list row)
+| HBackfill (sid : N).
 
 Definition hstep (st : istate) (o : hop) : istate * outcome unit :=
   match o with
@@ -205,20 +260,22 @@ Definition hstep (st : istate) (o : hop) : istate * outcome unit :=
   | HComplete sid => (complete_split st sid, Done tt)
   | HWrite sid b => write st sid b
   | HFlush => (flush_buffer st, Done tt)
+  | HHist sid rows => (add_hist st sid rows, Done tt)
+  | HBackfill sid => run_backfill st sid
   end.
 Definition hrun (st : istate) (h : list hop) : istate :=
   fold_left (fun s o => fst (hstep s o)) h st.
 
-Definition is_old (c : chunk) : bool := match c_shard c with None => true | Some _ => false end.
-Definition in_shard (s : N) (c : chunk) : bool := match c_shard c with Some s' => N.eqb s' s | None => false end.
 Definition rows_where (p : chunk -> bool) (cs : list chunk) : list row := concat (map c_rows (filter p cs)).
 Definition old_rows (st : istate) : list row := rows_where is_old (i_chunks st).
 Definition new_rows (st : istate) : list row := rows_where (fun c => negb (is_old c)) (i_chunks st).
 Definition shard_rows (st : istate) (s : N) : list row := rows_where (in_shard s) (i_chunks st).
 (* everything the old shard holds: flushed chunks followed by the buffer *)
 Definition stored (st : istate) : list row := old_rows st ++ buffer_rows (i_buffer st).
-Definition written_rows (h : list hop) : list row :=
-  concat (map (fun o => match o with HWrite _ b => ib_rows b | _ => [] end) h).
+(* rows an operation brings into the system *)
+Definition op_rows (o : hop) : list row :=
+  match o with HWrite _ b => ib_rows b | HHist _ rows => rows | _ => [] end.
+Definition written_rows (h : list hop) : list row := concat (map op_rows h).
 
 (* ------------------------------------------------------------------ *)
 (* Part B — dedup_batches and the split-time read path                   *)
